@@ -14,7 +14,8 @@ from vlib import core
 
 THEOREMS = ["Props.C07." + t for t in [
     "perm_into_map", "perm_into_map_needs_distinct_keys", "ns_add_comm", "std_imports_distinct",
-    "perm_then_sort", "perm_then_sort_strings", "perm_any", "perm_filter", "perm_sum", "replacer_perm",
+    "perm_then_sort", "perm_then_sort_strings", "service_throws_sorts_by_dedup_key", "service_throws_perm",
+    "service_throws_bare_name_insufficient", "sorted_fields_sorts_by_id", "perm_any", "perm_filter", "perm_sum", "replacer_perm",
     "insertion_keys_prefix_free", "insertion_replace_perm", "insertion_replace_needs_key_alphabet",
     "descriptor_bytes_perm", "file_descriptor_perm", "const_map_bytes_perm", "plugin_request_perm", "fastgo_imports_perm",
     "descriptor_bytes_key_only_sort_insufficient",
@@ -22,14 +23,17 @@ THEOREMS = ["Props.C07." + t for t in [
     "plugin_request_unsorted_order_sensitive", "fastgo_imports_unsorted_order_sensitive",
     "site_inventory_covered", "emit_in_order_sites"]]
 
-RULE = ("in-process cases (V: ConstValueDescriptor maps with 0..8 string entries, keys of equal content allowed, one case per distinct byte string in 8 calls; R: Feed histories with insertion points and patches; D: FileDescriptors with 0..4 includes and 0..6 "
+RULE = ("in-process cases (T: the template function ServiceThrows on scopes built from same-named exceptions of 2..4 packages, 16 calls per service; V: ConstValueDescriptor maps with 0..8 string entries, keys of equal content allowed, one case per distinct byte string in 8 calls; R: Feed histories with insertion points and patches; D: FileDescriptors with 0..4 includes and 0..6 "
         "namespaces, one case per distinct byte string meta.Marshal produced in 8 calls; N: namespace.Add sequences, for "
         "pairwise-distinct names/ids also 3 random permutations) are distinct by sha256 of the op line and non-trivial when they "
         "have >=1 insertion point and >=1 patch / a map of >=2 entries / >=2 entries; dynamic cases are (generated multi-file IDL "
         "program x option set) combos, each executed runs_per_combo times with GOMAXPROCS cycling 1,2,7,16, relative and absolute "
         "output directories and once into a directory holding a stale previous output; before them a regression corpus: the 3 minimal "
         "witnesses of the three repaired defects (32 executions each), a map constant/default with struct keys of equal content (24) and "
-        "3 wide variants with 8-entry maps (6 each at quick, 16 at thorough), one hash expected; a combo counts as distinct non-trivial when "
+        "3 wide variants with 8-entry maps (6 each at quick, 16 at thorough), and aimed programs on every seed: the same names (exceptions, "
+        "struct, enum, typedef, consts, service) defined in 4 includes whose Go packages pairwise share their last element, used side by side, "
+        "under -r with the default, slim and raw_struct templates, slim with helper options, reflection+field masks and fastgo:no_fmt (8 each), "
+        "and a plugin that patches the generated file with nested insertion points (12); one hash expected; a combo counts as distinct non-trivial when "
         "thriftgo accepted it and it produced >=1 output file or plugin request; evaluations = in-process cases + thriftgo executions")
 
 
